@@ -322,8 +322,9 @@ func c17Check(e *env, batch []c17Pending) {
 		//      the Spec's tokens_of gives for this tree.  For expressions this is also a
 		//      theorem about the scanner MODEL (Properties/LexPrint.v lex_expr_print, used by
 		//      C17_text_roundtrip): here it ties that model's claim to the real scanner.
-		//      For print commands (directives, begin-tag state) no string-level theorem
-		//      exists: that case rests on this correspondence alone ----
+		//      Likewise for print commands (C17_lex_print_command).  What rests on the
+		//      correspondences alone: beginTag's dispatch to parsePrint, and spellings other
+		//      than the printer's own ----
 		if b.class == "ok" && !c17Unsafe(strings.TrimSuffix(printed[i], "}")) {
 			var lexed []parse.VerifItem
 			if b.c.Kind == "expr" {
